@@ -94,13 +94,13 @@ type PoolOpts struct {
 
 // CaseOutcome is what RunPool reports per scenario.
 type CaseOutcome struct {
-	Sc           *Scenario
-	Res          *Result // nil if the worker died or timed out
-	Died         bool    // worker process died while running this case
-	TimedOut     bool
-	Stderr       string
-	PanicLine    string
-	PanicSite    string
+	Sc        *Scenario
+	Res       *Result // nil if the worker died or timed out
+	Died      bool    // worker process died while running this case
+	TimedOut  bool
+	Stderr    string
+	PanicLine string
+	PanicSite string
 }
 
 func spawn(i int, o *PoolOpts) (*worker, error) {
